@@ -37,6 +37,11 @@ struct Case {
     /// again find everything current); ("appear", name): another program drops a file there
     #[serde(default)]
     between: Vec<Option<(String, String)>>,
+    /// idem histories: run k is a call of the library function generate_from_config by another
+    /// program. It always regenerates (it consults no record) and is not judged itself; the runs
+    /// after it are: the bindings it left are current and it has left a record that says so.
+    #[serde(default)]
+    via_library: Vec<bool>,
     cfg: Cfg,
     setup: Setup,
     /// idem: run 0 generates, the rest repeat. force: run 0 prepares, run 1 is judged
@@ -89,6 +94,8 @@ pub fn gen_cfg(r: &mut Rng, setup: &Setup) -> Cfg {
             c.field_case = Some(r.pick(crate::model::RENAME_RULES).to_string());
         }
     }
+    // (drawn last, so that everything above is what it was before this existed)
+    c.platform_confs = r.chance(1, 3);
     c
 }
 
@@ -239,6 +246,10 @@ impl Check for C14 {
             };
             procs[k].faults.push(crate::interpose::FaultSpec { at, kind: crate::interpose::FaultKind::Err(if qr.chance(1, 2) { libc::EIO } else { libc::EACCES }) });
         }
+        let via_library: Vec<bool> = {
+            let mut lr = r.split("library");
+            (0..n).map(|k| k > 0 && k + 1 < n && !force_kind && (i / 11) % 5 == 3 && between.iter().all(|b| b.is_none()) && lr.chance(1, 2)).collect()
+        };
         let mut fr = r.split("force");
         // the force matrix is walked systematically: (cache state) x (force source) x (setup);
         // i = 3*fk + 2 visits every setup for every cell because 3 is coprime to the setup count
@@ -267,6 +278,7 @@ impl Check for C14 {
             foreign,
             other_entry,
             between,
+            via_library,
             cfg,
             setup,
             procs,
@@ -360,6 +372,16 @@ impl Check for C14 {
                         let _ = std::fs::write(&p, format!("// dropped here by another program: {}\n", name));
                         co.count("files_appearing_between_runs", 1);
                     }
+                }
+                if c.via_library.get(k).copied().unwrap_or(false) {
+                    let r = scen::run_library(env, &w, &c.setup, &c.cfg, c.procs[k].clone(), false);
+                    co.count("processes", 1);
+                    co.count("library_runs_between_the_judged_runs", 1);
+                    if !r.res.status.is_ok() && !r.res.fired.iter().any(|(kind, _)| kind == "err") {
+                        co.violate("C14/repeat-run-fails".into(), "A: a repeated run with nothing changed succeeds", format!("library run {} returned {}", k, r.res.status.short()));
+                        break;
+                    }
+                    continue;
                 }
                 let before_files = scen::out_files(&w, &c.setup);
                 let mut setup_k = c.setup.clone();
